@@ -38,6 +38,7 @@ From Coq Require Import Permutation.
 From Eino Require Import Base.Util Model.Options Model.OptionsSpec Model.OptionsResume Model.OptionsAll
   Proofs.Options Proofs.OptionsResume Proofs.OptionsFired Proofs.OptionsPerm Proofs.OptionsClauses
   Proofs.OptionsAll Proofs.OptionsFails Proofs.OptionsMult.
+From Eino Require Import Model.OptionsHosted Proofs.OptionsHosted.
 From Eino Require Base.GoSlice Proofs.CallbacksSlice Model.OptionsSlice Proofs.OptionsSlice Proofs.OptionsSliceScript.
 Local Open Scope N_scope.
 
@@ -417,6 +418,43 @@ Theorem extract_option_rejects_level_bad :
 Proof. exact extract_option_fails. Qed.
 Print Assumptions extract_option_rejects_level_bad.
 
+(* ---- a call that does not come from a fresh context -------------------------------------- *)
+(* A compiled graph called by user code inside a node of another running graph (a lambda that
+   invokes an inner Runnable with the context it was handed), or with a context in which handlers
+   are already installed: the context brings handlers [hh] and nothing else. Model/OptionsHosted.v
+   run_hosted. The call reports exactly what the direct call reports, every callback manager with
+   the context's handlers in front of the node's own ... *)
+Theorem hosted_call_is_direct_call :
+  forall F hh opts,
+    run_hosted F hh opts = res_map (map (inherit hh)) (run_call F opts).
+Proof. exact hosted_is_direct. Qed.
+Print Assumptions hosted_call_is_direct_call.
+
+(* ... so every theorem above about run_call speaks about hosted calls too: the same nodes
+   report, every component receives the same option values (nothing of the host's call reaches
+   them, nothing of this call is lost), the handlers are the context's plus the direct call's ... *)
+Theorem hosted_call_delivers_same :
+  forall F hh opts rs,
+    run_hosted F hh opts = Ok rs ->
+    exists rs0, run_call F opts = Ok rs0 /\
+      map r_path rs = map r_path rs0 /\ map r_items rs = map r_items rs0 /\
+      map r_fired rs = map (fun r => match r_fired r with Some hs => Some (hh ++ hs) | None => None end) rs0.
+Proof. exact hosted_items. Qed.
+Print Assumptions hosted_call_delivers_same.
+
+(* ... and a bad designation is an error there exactly when it is one for the direct call
+   (wherever in the nesting it sits, executed or not: bad_designation_errors / call_fails_iff). *)
+Theorem hosted_call_fails_iff :
+  forall F hh opts,
+    (exists e, run_hosted F hh opts = Err e) <-> (exists e, run_call F opts = Err e).
+Proof. exact hosted_fails_iff. Qed.
+Print Assumptions hosted_call_fails_iff.
+
+Theorem hosted_call_fresh_context :
+  forall F opts, run_hosted F [] opts = run_call F opts.
+Proof. exact hosted_fresh_context. Qed.
+Print Assumptions hosted_call_fresh_context.
+
 (* ---- non-vacuity -------------------------------------------------------------------- *)
 Definition exF : forest :=
   [ [mkNode 1 (KComp 6) true true; mkNode 2 (KSub 1%nat) true true; mkNode 3 (KComp 0) false true];
@@ -581,3 +619,29 @@ Proof.
     constructor; [apply Permutation_refl|constructor].
   - eexists. split; [vm_compute; reflexivity|]. vm_compute. discriminate.
 Qed.
+
+(* a call issued with handlers 77 and 78 already in the context (from inside a node of a host
+   graph whose call carried them): every callback manager starts with them, the option values
+   are those of the direct call (run_example); a handler of the call itself comes after *)
+Example hosted_example :
+  run_hosted exF [77; 78] (exOpts ++ [mkOpt [] [5] [[2]]]) =
+  Ok [ mkRep [] None (Some [77; 78]);
+       mkRep [1] (Some [(6, 100)]) (Some [77; 78]);
+       mkRep [2] None (Some [77; 78; 5]);
+       mkRep [2; 1] (Some [(6, 100); (6, 101); (6, 102); (6, 103)]) (Some [77; 78; 5]);
+       mkRep [2; 3] (Some [(7, 104); (7, 104)]) (Some [77; 78; 5]);
+       mkRep [3] (Some []) None ]
+  /\ (exists e, run_hosted exF [77] [mkOpt [(6, 1)] [] [[2; 4; 9]]] = Err e).
+Proof. split; [vm_compute; reflexivity|eexists; vm_compute; reflexivity]. Qed.
+
+(* F-C16d (repaired by 8af3bf2): an option value without a type — WithLambdaOption(nil), type id
+   11 here, the option type of no component — designated to a component is an option of the
+   wrong type: the call fails (before the repair: a nil-pointer panic while the message was
+   built); undesignated, or designated to a sub graph node, it reaches nobody *)
+Example nil_value_example :
+  bad_path exF (mkOpt [(11, 1)] [] [[2; 1]]) 0 [2; 1] = true
+  /\ (exists e, run_call exF [mkOpt [(11, 1)] [] [[2; 1]]] = Err e)
+  /\ run_call exF [mkOpt [(11, 1)] [] []; mkOpt [(11, 2)] [] [[2]]] =
+     Ok [ mkRep [] None (Some []); mkRep [1] (Some []) (Some []); mkRep [2] None (Some []);
+          mkRep [2; 1] (Some []) (Some []); mkRep [2; 3] (Some []) (Some []); mkRep [3] (Some []) None ].
+Proof. repeat split; try (vm_compute; reflexivity). eexists; vm_compute; reflexivity. Qed.
